@@ -259,3 +259,78 @@ def fail(msg, expected=None, actual=None, case=None):
     if case is not None:
         d['case'] = case
     return d
+
+
+def same_value(a, b):
+    """two normalised outcomes denote the same value (numbers by R2, everything else exactly)"""
+    if a == b:
+        return True
+    if a[0] != b[0]:
+        return False
+    if a[0] != 'v':
+        return False
+
+    def eq(x, y):
+        if isnum(x) and isnum(y):
+            return close(x, y)
+        if isinstance(x, list) and isinstance(y, list):
+            return len(x) == len(y) and all(eq(p, q) for p, q in zip(x, y))
+        return x == y and type(x) is type(y)
+    return eq(a[1], b[1])
+
+
+class WholeFloats(Sub):
+    """A whole number is the same number whether it arrives as 2 or as 2.0 (the result of 4/2, a cell holding a
+    float): for every template and integer argument tuple, replacing any integer argument by its float spelling
+    (`2.0`, `(4/2)`, a float variable) must not change the outcome."""
+    rule = ('templates x integer argument tuples: each integer argument is replaced in turn (and all at once) by the same '
+            'whole number as a decimal literal k.0, as the quotient (2k/2) and as a float-valued variable; the outcome must '
+            'equal the outcome with integer arguments; non-trivial = all')
+    min_cases = 3
+    min_nontrivial = 3
+    TEMPLATES = []      # (template with {0} {1} ..., [tuples of ints])
+
+    def cases(self, tier, unit):
+        for ti, (tmpl, tuples) in enumerate(self.TEMPLATES):
+            for args in tuples:
+                yield [ti, list(args)]
+
+    @staticmethod
+    def spell(k, how):
+        if how == 'int':
+            return str(k) if k >= 0 else '(0-%d)' % -k
+        if how == 'dec':
+            return '%d.0' % k if k >= 0 else '(0-%d.0)' % -k
+        if how == 'quot':
+            return '(%d/2)' % (2 * k) if k >= 0 else '(0-%d/2)' % (-2 * k)
+        return 'xf%s' % 'abcdef'[how]       # variable (letters only: xf0 would be a cell reference)
+
+    def check(self, env, case):
+        ti, args = case
+        tmpl = self.TEMPLATES[ti][0]
+        env.nt()
+        base_text = tmpl.format(*[self.spell(k, 'int') for k in args])
+        base = env.evo(base_text, vars=getattr(self, 'VARS', None))
+        if base[0] in ('x', 'bad') or base == ['e', '#ERROR!']:
+            return fail('reference formula %r itself fails: %r' % (base_text, base))
+        positions = [[i] for i in range(len(args))] + ([list(range(len(args)))] if len(args) > 1 else [])
+        for pos in positions:
+            for how in ('dec', 'quot', 'var'):
+                vars = dict(getattr(self, 'VARS', None) or {})
+                parts = []
+                for i, k in enumerate(args):
+                    if i in pos:
+                        if how == 'var':
+                            vars['xf%s' % 'abcdef'[i]] = float(k)
+                            parts.append('xf%s' % 'abcdef'[i])
+                        else:
+                            parts.append(self.spell(k, how))
+                    else:
+                        parts.append(self.spell(k, 'int'))
+                text = tmpl.format(*parts)
+                out = env.evo(text, vars=vars)
+                if not same_value(out, base):
+                    return fail('%r gives %r but with the same whole numbers written as floats %r%s gives %r' % (
+                        base_text, base, text, (' with %s' % dict((k, v) for k, v in vars.items() if k.startswith('xf')))
+                        if how == 'var' else '', out), base, out)
+        return None
